@@ -28,12 +28,12 @@ type c20KeySet struct {
 
 func c20GenHistory(c *Ctx) {
 	pg := newC20PrimeGen()
-	cfgs := []c20BRCfg{{4, 4, []int{27}, []int{40}, 7, []int{14}, 3, false}}
+	cfgs := []c20BRCfg{{4, 4, []int{27}, []int{40}, 7, []int{14}, 3, false, -1, false}}
 	if c.Thorough() {
 		cfgs = append(cfgs,
-			c20BRCfg{4, 4, []int{27}, nil, 7, []int{14}, 2, false},
-			c20BRCfg{5, 4, []int{30}, []int{41}, 0, []int{15}, 4, false},
-			c20BRCfg{4, 4, []int{28, 30}, []int{40, 41}, 0, []int{13, 14}, 2, false})
+			c20BRCfg{4, 4, []int{27}, nil, 7, []int{14}, 2, false, -1, false},
+			c20BRCfg{5, 4, []int{30}, []int{41}, 0, []int{15}, 4, false, -1, false},
+			c20BRCfg{4, 4, []int{28, 30}, []int{40, 41}, 0, []int{13, 14}, 2, false, -1, false})
 	}
 	for _, cfg := range cfgs {
 		nthBR := uint64(2 << cfg.logNBR)
@@ -131,6 +131,12 @@ func c20GenHistory(c *Ctx) {
 				}
 			}
 			ctL := psL.mkCt(ksX.skL, psL.rowsFromBig(mv, llq), c1)
+			if step%3 != 0 {
+				// coefficient-domain sample: Evaluate must copy it, the same sample is evaluated three times below
+				psL.params.RingQ().AtLevel(llq).INTT(ctL.Value[0], ctL.Value[0])
+				psL.params.RingQ().AtLevel(llq).INTT(ctL.Value[1], ctL.Value[1])
+				ctL.IsNTT = false
+			}
 			// slot map: a subset, a different test polynomial per slot on odd steps
 			tpm := map[int]*ring.Poly{}
 			var idxs []int
@@ -166,7 +172,7 @@ func c20GenHistory(c *Ctx) {
 					}
 				}
 			}
-			c.Probe("blindrot_history", fmt.Sprintf("n=%d nl=%d nP=%d w=%d step=%d history=%s slots=%d mixed=%d seed=%d", N, NL, len(P), w, step, hist, len(idxs), step%2, c.Seed),
+			c.Probe("blindrot_history", fmt.Sprintf("n=%d nl=%d nP=%d w=%d step=%d history=%s slots=%d mixed=%d ntt=%d seed=%d", N, NL, len(P), w, step, hist, len(idxs), step%2, c20B2i(ctL.IsNTT), c.Seed),
 				"blindrot-evaluator-state", detail)
 			c.Count("history:keyset=" + ksX.name)
 			// ties and f(x) probes on the shared evaluator (one test polynomial for all slots)
